@@ -175,7 +175,7 @@ def main(ctx, replay=None):
                 if numpy.iscomplexobj(out):
                     out = out.real if numpy.allclose(out.imag, 0) else out
                 if numpy.iscomplexobj(out) or not numpy.allclose(out, comp[(I, J)], rtol=0, atol=1e-10 * scale):
-                    ctx.violation(f"c{I}{J}: solver returns {numpy.asarray(out)[:2].tolist()} for a tensor whose c{I}{J} is "
+                    ctx.violation(f"c{I}{J}: solver returns {numpy.atleast_1d(numpy.asarray(out))[:2].tolist()} for a tensor whose c{I}{J} is "
                                   f"{comp[(I, J)][:2].tolist()} ({kind})", {**case, "tensor": comp},
                                   {**sig, "clause": "target_exact", "tensor": kind})
                     break
